@@ -1089,6 +1089,19 @@ func c15Impl(c lib.Case) []string {
 			} else {
 				o = fmt.Sprintf("purged=%v age=%d deadline=%d", purged, age, d)
 			}
+		case len(a) == 3 && a[0] == "hbxn":
+			// the same instance at nanosecond resolution around the deadline: age = deadline + delta ns
+			d, delta := atoi(a[1]), atoi(a[2])
+			clk := clocks.NewFrozenClock()
+			lt := jobs.NewLivenessTracker(clk, time.Duration(d)*time.Second)
+			lt.Heartbeat("x")
+			clk.Advance(time.Duration(d)*time.Second + time.Duration(delta))
+			purged := len(lt.Purge()) == 1
+			if purged == (delta > 0) {
+				o = "ok"
+			} else {
+				o = fmt.Sprintf("purged=%v age=deadline%+dns deadline=%ds", purged, delta, d)
+			}
 		case len(a) == 1 && a[0] == "st":
 			if w.sync() {
 				o = w.state()
@@ -1469,6 +1482,8 @@ func c15Gen1(r *lib.Rng, tier string, idx int) lib.Case {
 		}
 	}
 	g.add("hbx %d %d", d, r.Range(0, 2*d+1))
+	g.add("hbx %d %d", d, d+r.Range(-1, 1))              // at, one second before, one second after the deadline
+	g.add("hbxn %d %d", d, lib.Pick(r, []int{-1, 0, 1})) // at, one nanosecond before / after
 	g.add("st")
 	return lib.Case{Header: c15Header(w, d, c0), Ops: g.ops}
 }
@@ -1507,7 +1522,8 @@ func c15Fixed() []lib.Case {
 		{Header: c15Header(2, 5, 4), Ops: []string{
 			"reg o 0", "reg o 1", "reg o 2", "reg s 3", "reg s 4", "deployfail 1", "deployok", "tick", "adv 6",
 			"reg o 0", "st", "reg o 2", "reg s 3", "reg s 4", "reg o 5", "deployok", "tick", "st",
-			"hbx 5 4", "hbx 5 5", "hbx 5 6", "hbx 0 0", "hbx 0 1"}},
+			"hbx 5 4", "hbx 5 5", "hbx 5 6", "hbx 0 0", "hbx 0 1", "hbx 3 2", "hbx 3 3", "hbx 3 4", "hbx 10 10", "hbx 10 11",
+			"hbxn 5 -1", "hbxn 5 0", "hbxn 5 1", "hbxn 3 -1", "hbxn 3 0", "hbxn 3 1", "hbxn 0 0", "hbxn 0 1", "hbxn 10 -1000000", "hbxn 10 1000000"}},
 	}
 }
 
